@@ -1,5 +1,6 @@
 #!/bin/sh
 # tools/try_revert.sh <fix-commit> <Cnn...> : reverse-apply a fix commit in /repo's working tree, run checks, restore.
+[ -z "$(git -C /repo status --porcelain)" ] || { echo "REFUSING: /repo has uncommitted changes (this tool ends with git checkout -- .)"; exit 4; }
 c="$1"; shift
 git -C /repo show "$c" | git -C /repo apply -R || { echo "cannot reverse-apply $c"; exit 3; }
 for p in "$@"; do /verif/check "$p" --tier quick 2>&1 | grep -E "VIOLATION|ANALYSIS-ERROR|finding|^\[" | head -12; done
